@@ -54,6 +54,8 @@ type CPkt struct {
 	AnyDenied bool   // a refusal may carry any of the access-denied status codes
 	// OverDeclared: a DATA packet whose length field exceeds the bytes carried
 	OverDeclared bool
+	// Wire: bytes already framed for the transport, sent as they are instead of Bytes
+	Wire []byte
 }
 
 func (p CPkt) String() string {
@@ -279,7 +281,13 @@ func StartTunnels(c *Ctx, plans []*TunPlan) []*Tun {
 				t.sendSeg(c)
 				return
 			}
-			cl.SendPacket(p.Pkts[t.next].Bytes)
+			if pk := p.Pkts[t.next]; pk.Wire != nil {
+				// already framed for the transport (e.g. a websocket TEXT message)
+				cl.Sent = append(cl.Sent, env.SentPkt{Seq: c.S.Seq, Index: len(cl.Sent), Bytes: pk.Bytes})
+				cl.SendWire(pk.Wire)
+			} else {
+				cl.SendPacket(pk.Bytes)
+			}
 			t.next++
 		})
 		if p.DupIn > 0 && p.Transport == "legacy" {
